@@ -381,13 +381,18 @@ func (q *c17Req) formCases(g c17Gen) {
 	tip := q.ch.cs.Index
 	one := types.NewCurrency64(1)
 	fee := types.NewCurrency64(10)
-	for _, tipOff := range []int64{0, -3, 4} {
+	for _, tipOff := range []int64{0, -3, 4, -25} {
+		if int64(tip.Height)+tipOff < 0 {
+			tipOff = -int64(tip.Height) // a price table as old as the chain allows
+		}
 		p := q.sign(rhp4.HostPrices{ContractPrice: types.NewCurrency64(1000), Collateral: types.NewCurrency64(3), StoragePrice: types.NewCurrency64(2), TipHeight: uint64(int64(tip.Height) + tipOff)})
 		mph := max(tip.Height, p.TipHeight) + rhp4.MinContractDuration
 		base := rhp4.RPCFormContractParams{RenterPublicKey: q.ch.renter.PublicKey(), RenterAddress: q.ch.rentAddr, Allowance: types.Siacoins(10), Collateral: types.Siacoins(5), ProofHeight: mph}
 		maxColl := types.Siacoins(100)
 		// proof height boundaries
-		for _, ph := range []uint64{mph - 1, mph, mph + 1, c17MaxU64 - rhp4.ProofWindow - 1, c17MaxU64 - rhp4.ProofWindow, c17MaxU64 - rhp4.ProofWindow + 1, c17MaxU64} {
+		// (also the bound computed from the OLDER of the two tips, and heights at / just above the host's tip: a stale
+		// price table must not let a proof height through that consensus will call "already passed")
+		for _, ph := range []uint64{min(tip.Height, p.TipHeight) + rhp4.MinContractDuration, tip.Height, tip.Height + 1, mph - 1, mph, mph + 1, c17MaxU64 - rhp4.ProofWindow - 1, c17MaxU64 - rhp4.ProofWindow, c17MaxU64 - rhp4.ProofWindow + 1, c17MaxU64} {
 			x := base
 			x.ProofHeight = ph
 			q.form(tip, p, fee, tip, 1, x, maxColl, c17MaxU64, true)
@@ -421,6 +426,17 @@ func (q *c17Req) formCases(g c17Gen) {
 		ft := types.ChainIndex{Height: th, ID: types.BlockID{1}}
 		p := q.sign(rhp4.HostPrices{ContractPrice: one, TipHeight: th})
 		for _, ph := range []uint64{th + rhp4.MinContractDuration, c17MaxU64 - rhp4.ProofWindow, c17MaxU64} {
+			q.form(ft, p, fee, ft, 1, rhp4.RPCFormContractParams{Allowance: one, ProofHeight: ph}, types.Siacoins(1), c17MaxU64, false)
+		}
+	}
+	// a host tip far ahead of (or behind) the tip its signed price table was made at: the minimal proof height follows
+	// the NEWER of the two, so whatever Validate lets through is still ahead of the host's child height
+	for _, off := range []int64{-40, -25, -19, -18, -17, -1, 1, 30} {
+		ft := types.ChainIndex{Height: 1000, ID: types.BlockID{2}}
+		p := q.sign(rhp4.HostPrices{ContractPrice: one, TipHeight: uint64(1000 + off)})
+		lo := min(ft.Height, p.TipHeight) + rhp4.MinContractDuration
+		hi := max(ft.Height, p.TipHeight) + rhp4.MinContractDuration
+		for _, ph := range []uint64{lo - 1, lo, lo + 1, ft.Height - 1, ft.Height, ft.Height + 1, hi - 1, hi, hi + 1} {
 			q.form(ft, p, fee, ft, 1, rhp4.RPCFormContractParams{Allowance: one, ProofHeight: ph}, types.Siacoins(1), c17MaxU64, false)
 		}
 	}
